@@ -18,6 +18,12 @@ correspondence : standard_aggregation / naive_aggregation kernels (rebuilt from 
                  (ops `ext_c12_ballloyd`, `ext_c12_ballloyd_agg`, `ext_c12_center_nodes`), exact on clusters, centres,
                  AggOp CSR arrays, d / p / pc, the kind of ValueError; the `np.argsort` results inside `_rebalance`
                  are recorded and replayed (the model checks that they are sorted permutations).
+                 E56 (part z): the wrapper `pairwise_aggregation` (matchings 1..3, theta, norm) vs the composed model `C12ZW.wrapper`
+                 (op `ext_c12z_pw`: raw arrays of T, Cpts, aggregates per level, composed assignment map), exact on integer matrices;
+                 `lloyd_aggregation` on complex strength matrices / stored zeros under measure='inv' vs `C12ZM.lloydAggregationQ`
+                 (ops `ext_c12z_lloyd_agg`, `ext_c12z_measure`), exact on Gaussian rationals with rational modulus; every
+                 `bellman_ford_balanced` call of the real `balanced_lloyd_cluster` vs the conclusion `Final` of the every-pass theorems
+                 (independent Dijkstra oracle; hypotheses evaluated by `ext_c12z_sym`, `ext_c12z_grid`).
 search         : public routines of pyamg/aggregation/aggregate.py (standard, naive, pairwise with
                  1..3 matchings, Lloyd, balanced Lloyd) judged by the partition specification; the
                  pairwise wrapper's T and Cpts must be the composition of its recorded matchings.
@@ -49,10 +55,14 @@ META = {
                     'arrays before the repair 4c0adfe, which skips the rebalancing; the generator still leaves it out) and complex '
                     'strength values are outside the model',
                     'Lloyd: np.random.permutation itself is replayed, not modelled; complex strength values and measure=inv '
-                    'with a stored zero (1/0 = inf) are outside the model (judged by the specification checker only)',
-                    'pairwise wrapper: strength matrices and Galerkin products between matchings are not modelled; every kernel '
-                    'call the wrapper makes is compared with the Lean kernel model, and T / Cpts with the composition of the '
-                    'recorded assignment maps (the object of pairwise_matchings_fiber)',
+                    'with a stored zero (1/0 = inf) are modelled since E56 (C12ZM.applyMeasureC / lloydAggregationQ, compared '
+                    'exactly in part z on Gaussian rationals with rational modulus); irrational moduli are refused by the model '
+                    '(`unmodelled`: specification checker only); for runs WITH an inf edge only the model correspondence and the '
+                    'specification checker (reachability along finite edges) decide, the partition theorems cover the inf-free case',
+                    'pairwise wrapper: modelled since E56 (C12ZW.wrapper = strength C14.pubClassicalNorm + kernel model + SciPy '
+                    'products Spmm.mul / transpose / galerkin; CSR input, compute_P=False, norm min / abs) and compared exactly with '
+                    'the real wrapper on integer matrices (part z); BSR input, compute_P=True and non-integer data are judged by the '
+                    'specification checker and the recorded kernel calls only (parts b, v)',
                     'values part: complex strength matrices (six value classes x symmetric / conjugate / nonsymmetric values on a '
                     'symmetric pattern) and real matrices with negative entries through standard, naive, pairwise (norm=abs for '
                     'complex), Lloyd, lloyd_cluster, balanced Lloyd x all five measures, CSR / CSC: specification checkers only '
@@ -68,7 +78,17 @@ META = {
                     'centres, maxiter >= 1, every weight >= tol = 1e-14 > 0 (any pattern); they speak about runs that return '
                     '(ValueError / RuntimeError exits and the refusals `unmodelled...` of the model are not results); '
                     'balanced_lloyd_first_pass: weights on a grid h*N with 2*tol < h; exact comparison: positive dyadic '
-                    'weights (sums of squared path lengths exact in binary64), rows without duplicate entries'],
+                    'weights (sums of squared path lengths exact in binary64), rows without duplicate entries',
+                    'every-pass theorems (bal_center_nodes_inv, balanced_lloyd_pass_final / every_pass / outer_final / cluster_final): '
+                    'symmetric sparsity pattern (SymE; weights may be nonsymmetric), weights positive multiples of a grid h with '
+                    '0 < tol, 2*tol < h and >= tol, distinct initial centres, maxiter >= 1 for the statements about returned clusters; '
+                    'the check evaluates the Boolean forms symEB / gridB (proved to imply the hypotheses) on every generated input '
+                    '(h = 1/4, tol = 1e-14) and judges every recorded kernel call of the real routine by an independent Dijkstra oracle of Final',
+                    'pairwise wrapper theorems (pairwise_wrapper_spec / _fiber): n >= 1, square well-formed CSR matrix, matchings >= 1; '
+                    'exact comparison: integer matrices (|a| <= 8 on level 0), theta in {0, 1/4, 1/2}',
+                    'complex Lloyd theorems (lloyd_complex_aggregation_spec): symmetric pattern, no stored zero under measure=inv, '
+                    'maxiter >= 1, sound square root; exact comparison: Gaussian rationals with rational modulus (Pythagorean multiples, '
+                    'powers of two for inv)'],
 }
 
 
@@ -1385,14 +1405,27 @@ def run(ctx):
 
 
 def part_z(ctx, quick, deep=False):
-    """extension E56: the pairwise WRAPPER vs the composed Lean model (harness/c12z_wrap.py)"""
+    """extension E56: the pairwise WRAPPER vs the composed Lean model (harness/c12z_wrap.py); lloyd_aggregation on
+    complex values / stored zeros under measure=inv vs the Lean model (harness/c12z_meas.py); every Bellman-Ford pass of
+    the real balanced_lloyd_cluster vs the conclusion `Final` of the every-pass theorems (harness/c12z_bal.py)"""
     from c12z_wrap import part_w
+    from c12z_meas import part_m
+    from c12z_bal import part_p
+    defer = []
     if deep:
-        part_w(ctx, list(graph_stream(ctx, 4, 1500, 30)))
+        sizes = ((4, 1500, 30),) * 3
     elif quick:
-        part_w(ctx, list(graph_stream(ctx, 3, 70, 14)))
+        sizes = ((3, 50, 14), (3, 60, 14), (3, 60, 16))
     else:
-        part_w(ctx, list(graph_stream(ctx, 4, 3000, 40)))
+        sizes = ((4, 3000, 40),) * 3
+    for fn, sz in zip((part_w, part_m, part_p), sizes):
+        fn(ctx, list(graph_stream(ctx, *sz)), defer)
+    # one batch through the Lean driver for the three parts
+    outs = ctx.lean([ln for lines, _ in defer for ln in lines])
+    pos = 0
+    for lines, finish in defer:
+        finish(outs[pos:pos + len(lines)])
+        pos += len(lines)
 
 
 def search(ctx):
@@ -1532,6 +1565,18 @@ def replay(ctx, data):
         k = amg_core.pairwise_aggregation(n, ap, aj, ax, x, y)
         print('replaying pairwise kernel: x =', x.tolist(), 'y =', y[:k].tolist(), 'k =', k)
         compare_pairwise_calls(ctx, [(n, ap, aj, ax, x, y, int(k), 'raw')])
+        for v in ctx.violations[:5]:
+            print('  ', v['what'])
+        return
+    if c.get('routine') == 'balanced_lloyd_every_pass':
+        from c12z_bal import replay_p
+        replay_p(ctx, c)
+        for v in ctx.violations[:5]:
+            print('  ', v['what'])
+        return
+    if c.get('routine') == 'lloyd_aggregation_values':
+        from c12z_meas import replay_m
+        replay_m(ctx, c)
         for v in ctx.violations[:5]:
             print('  ', v['what'])
         return
